@@ -16,6 +16,7 @@ import (
 	"fmt"
 	"math/rand"
 	"strings"
+	"sync/atomic"
 	"time"
 )
 
@@ -226,7 +227,74 @@ func (c *c07Run) readResult(x string, id int, op string, n int, data []byte, cnt
 	return "ok " + hex.EncodeToString(data)
 }
 
+// c15CrossSession: the pool's session is replaced (the manager rebuilt it) while a caller still holds a stream of the old
+// session, whose tear-down has not run yet; the caller gives the stream back; the next GetStream must not hand it out.
+// ops: "pxs <held> <back>": <held> streams taken from the pool before the session is lost, <back> of them given back.
+func c15CrossSession(f []string) vResult {
+	res := vResult{noModel: true, out: []string{"done"}}
+	held, back := vAtoi(f[1]), vAtoi(f[2])
+	if held < 1 || held > 4 || back < 0 || back > held {
+		res.out = []string{"bad-op"}
+		return res
+	}
+	mk := func() *c07Run {
+		c := &c07Run{tags: map[string]bool{}, prop: "C15"}
+		if c.init(4, []string{"16:8"}) != nil {
+			return nil
+		}
+		return c
+	}
+	c1, c2 := mk(), mk()
+	if c1 == nil || c2 == nil {
+		res.specFail, res.key = "could not build the sessions", "setup"
+		return res
+	}
+	defer c1.closeAll()
+	defer c2.closeAll()
+	old, fresh := c1.ends["a"].s, c2.ends["a"].s
+	pool := newStreamPool(4)
+	pool.session.Store(old)
+	var mine []*Stream
+	for i := 0; i < held; i++ {
+		st, err := pool.getOrOpenStream()
+		if err != nil {
+			res.specFail, res.key = "GetStream on a healthy session: "+err.Error(), "pool-get-error"
+			return res
+		}
+		mine = append(mine, st)
+	}
+	old.Close()               // the session is lost: marked shut down at once, its streams are torn down later by the event loop
+	pool.session.Store(fresh) // the manager's watcher rebuilt the session
+	for i := 0; i < back; i++ {
+		pool.putOrCloseStream(mine[i])
+	}
+	for i := 0; i < held+1; i++ {
+		st, err := pool.getOrOpenStream()
+		if err != nil {
+			res.specFail, res.key = "GetStream after the session was rebuilt: "+err.Error(), "pool-get-error"
+			return res
+		}
+		// S (C15): a stream handed out is open, clean and belongs to a live session
+		if st.Session().IsClosed() {
+			res.specFail = fmt.Sprintf("GetStream handed out stream %d of a session that is shut down (the pool's session was rebuilt; the stream was given back after that)", st.id)
+			res.key = "pool-hands-out-stream-of-dead-session"
+			return res
+		}
+		if !st.IsOpen() {
+			res.specFail, res.key = "GetStream handed out a stream that is not open", "pool-hands-out-closed-stream"
+			return res
+		}
+	}
+	res.tags = []string{"pool-session-rebuilt-while-streams-held"}
+	return res
+}
+
 func c07Exec(ops []string, prop string) vResult {
+	if prop == "C15" && len(ops) == 1 && strings.HasPrefix(ops[0], "pxs ") {
+		if f := vFields(ops[0]); len(f) == 3 {
+			return c15CrossSession(f)
+		}
+	}
 	c := &c07Run{tags: map[string]bool{}, prop: prop}
 	var out []string
 	defer func() {
@@ -234,6 +302,7 @@ func c07Exec(ops []string, prop string) vResult {
 			c.closeAll()
 		}
 	}()
+	var exec1 func(op string, f []string) string
 	for _, op := range ops {
 		f := vFields(op)
 		if c.dead {
@@ -252,7 +321,7 @@ func c07Exec(ops []string, prop string) vResult {
 			out = append(out, "bad-op")
 			continue
 		}
-		line := func() (line string) {
+		exec1 = func(op string, f []string) (line string) {
 			defer func() {
 				if r := recover(); r != nil {
 					c.dead = true
@@ -315,14 +384,50 @@ func c07Exec(ops []string, prop string) vResult {
 				s.st.BufferWriter().WriteByte(byte(vAtoi(f[3])))
 				s.wbuf = append(s.wbuf, byte(vAtoi(f[3])))
 				return fmt.Sprintf("ok wlen=%d", s.st.sendBuf.Len()) + c.suffix(x, id)
-			case f[0] == "flush" && len(f) == 3 && e != nil:
+			case (f[0] == "flush" || f[0] == "flushd") && len(f) == 3 && e != nil:
 				if s == nil || s.st == nil {
 					return "missing"
 				}
 				wlen := s.st.sendBuf.Len()
 				fbBefore := e.s.stats.fallbackWriteCount
-				s.st.SetWriteDeadline(time.Now().Add(-time.Hour)) // Stream.reset (pool) clears it; a full queue must answer at once
-				err := s.st.Flush(false)
+				var err error
+				if f[0] == "flushd" {
+					// Flush finds the queue full and retries (10 ms apart) while the peer drains the queue: the retried put
+					// succeeds, and the element must still be announced to the (by now idle) consumer
+					s.st.SetWriteDeadline(time.Time{})
+					qf0 := atomic.LoadUint64(&e.s.stats.queueFullErrorCount)
+					done := make(chan error, 1)
+					go func() { done <- s.st.Flush(false) }()
+					full := false
+					for t0 := time.Now(); time.Since(t0) < 2*time.Second; {
+						if atomic.LoadUint64(&e.s.stats.queueFullErrorCount) != qf0 {
+							full = true
+							break
+						}
+						select {
+						case err = <-done:
+							done <- err
+							t0 = time.Time{}
+						default:
+							time.Sleep(200 * time.Microsecond)
+						}
+					}
+					if full {
+						c.tags["flush-retried-while-peer-drains"] = true
+						for c.undelivered(x) > 0 {
+							exec1("deliver "+peerName(x), []string{"deliver", peerName(x)})
+						}
+					}
+					select {
+					case err = <-done:
+					case <-time.After(5 * time.Second):
+						c.setFail("flush-hangs", "Flush did not return within 5 s of the peer draining the full queue")
+						return "hang"
+					}
+				} else {
+					s.st.SetWriteDeadline(time.Now().Add(-time.Hour)) // Stream.reset (pool) clears it; a full queue must answer at once
+					err = s.st.Flush(false)
+				}
 				r := "shm"
 				switch {
 				case err == ErrStreamClosed:
@@ -457,6 +562,13 @@ func c07Exec(ops []string, prop string) vResult {
 					return "missing"
 				}
 				s.st.BufferReader().ReleasePreviousRead()
+				return "ok" + c.suffix(x, id)
+			case f[0] == "reuse" && len(f) == 3 && e != nil:
+				if s == nil || s.st == nil {
+					return "missing"
+				}
+				s.st.ReleaseReadAndReuse()
+				c.tags["release-and-reuse"] = true
 				return "ok" + c.suffix(x, id)
 			case f[0] == "pool" && len(f) == 2 && c.pool == nil:
 				c.pool = newStreamPool(uint32(vAtoi(f[1])))
@@ -607,7 +719,8 @@ func c07Exec(ops []string, prop string) vResult {
 				return fmt.Sprintf("ok %d", n) + c.gsuffix()
 			}
 			return "bad-op"
-		}()
+		}
+		line := exec1(op, f)
 		out = append(out, line)
 	}
 	if c.ends != nil && !c.dead && c.fail == "" {
@@ -665,6 +778,13 @@ func (c *c07Run) quiesce() {
 		}
 	}
 	drainAll()
+	// S (C05, at operation level): every event on either connection has been handled and both consumers are idle: an
+	// element still sitting in a queue will never be looked at unless some unrelated later traffic happens to wake the peer
+	for _, x := range []string{"a", "b"} {
+		if n := c.ends[x].s.queueManager.sendQueue.size(); n > 0 {
+			c.setFail("stranded-element", fmt.Sprintf("nothing is in flight on the connection of %s and its peer's consumer is idle, yet %d element(s) sit in the queue: enqueued without a wake-up", x, n))
+		}
+	}
 	for _, x := range []string{"a", "b"} {
 		e := c.ends[x]
 		// every stream the harness knows, plus whatever is still registered in the session table
@@ -744,6 +864,10 @@ func (c *c07Run) quiesce() {
 }
 
 func c15Gen(r *rand.Rand) []string {
+	if r.Intn(12) == 0 {
+		h := 1 + r.Intn(4)
+		return []string{fmt.Sprintf("pxs %d %d", h, r.Intn(h+1))}
+	}
 	cls := [][]string{{"16:8"}, {"8:6", "32:4"}}[r.Intn(2)]
 	caps, _ := c06Classes(cls)
 	ops := []string{fmt.Sprintf("init %d %s", []int{2, 4, 8}[r.Intn(3)], strings.Join(cls, " ")), fmt.Sprintf("pool %d", r.Intn(4))}
@@ -840,14 +964,22 @@ func c07Gen(r *rand.Rand, tier string, idx int, flavour string) []string {
 		case k < 5:
 			ops = append(ops, fmt.Sprintf("wb %s %d %s", x, id, c06RandBytes(r, sz(), &seq)))
 		case k < 9:
-			ops = append(ops, fmt.Sprintf("flush %s %d", x, id))
+			if r.Intn(6) == 0 {
+				// fill the queue first so that this Flush meets a full queue while the peer drains it
+				for q := 0; q < qcap; q++ {
+					ops = append(ops, fmt.Sprintf("wb %s %d %s", x, id, c06RandBytes(r, 1+r.Intn(3), &seq)), fmt.Sprintf("flush %s %d", x, id))
+				}
+				ops = append(ops, fmt.Sprintf("wb %s %d %s", x, id, c06RandBytes(r, 1+r.Intn(3), &seq)), fmt.Sprintf("flushd %s %d", x, id))
+			} else {
+				ops = append(ops, fmt.Sprintf("flush %s %d", x, id))
+			}
 		case k < 13:
 			ops = append(ops, "deliver "+[]string{"a", "b", "b"}[r.Intn(3)])
 		case k < 17:
 			opn := []string{"rb", "rb", "pk", "dc", "rd"}[r.Intn(5)]
 			ops = append(ops, fmt.Sprintf("%s %s %d %d", opn, peerName(x), id, 1+r.Intn(2*caps[0])))
 		case k < 18:
-			ops = append(ops, fmt.Sprintf("rel %s %d", peerName(x), id))
+			ops = append(ops, fmt.Sprintf("%s %s %d", []string{"rel", "rel", "reuse"}[r.Intn(3)], peerName(x), id))
 		case k < 20:
 			ops = append(ops, fmt.Sprintf("close %s %d", x, id))
 		case k < 22:
